@@ -10,6 +10,9 @@ s = open('/verif/DESIGN.md').read()
 recs = [json.loads(l) for l in open('/verif/known_findings.jsonl')]
 rows = "| property | commit | what failed |\n|---|---|---|\n" + "".join(f"| {r['property']} | `{r['commit']}` | {r['what']} |\n" for r in recs if r['kind'] == 'fixed')
 s = between(s, "fixed-table", rows)
+why = json.load(open('/verif/findings_why.json'))
+rows = "| id | property | what fails | why not repaired |\n|---|---|---|---|\n" + "".join(f"| {r['id']} | {r['property']} | {r['what']} | {why.get(r['id'], '')} |\n" for r in recs if r['kind'] == 'finding')
+s = between(s, "findings-table", rows)
 rows = "| change | what was changed | what it needs to manifest | caught by (quick tier, exit 1) | also run, not caught |\n|---|---|---|---|---|\n"
 for name in sorted(os.listdir('/verif/seeded')):
     m = json.load(open(f'/verif/seeded/{name}/meta.json'))
